@@ -138,6 +138,90 @@ func (h *Hist) lookupChains() []string {
 	return out
 }
 
+// deriveDelegators: a reward-delegator map derived from the stored one: same keys with other shares, one share
+// changed, shares swapped between keys, a key added / removed / replaced, nil (= empty on the wire), an identical copy.
+func (h *Hist) deriveDelegators(cur map[string]uint32, sameKeys bool) map[string]uint32 {
+	r := h.r
+	lo := func(k chain.Key) string { return strings.ToLower(k.Addr.String()) }
+	fresh := func() string { // a delegator address that is not a key of cur
+		for i := 0; i < 8; i++ {
+			a := lo(h.outs[r.Intn(len(h.outs))])
+			if _, ok := cur[a]; !ok {
+				return a
+			}
+		}
+		return lo(h.nodes[0])
+	}
+	if len(cur) == 0 {
+		switch r.Intn(5) {
+		case 0:
+			return nil
+		case 1:
+			return nil // (an empty map is nil on the wire; signing over the empty form cannot verify)
+		case 2:
+			return map[string]uint32{fresh(): uint32(1 + r.Intn(100))}
+		default:
+			return map[string]uint32{lo(h.outs[2]): uint32(1 + r.Intn(50)), lo(h.outs[3]): uint32(1 + r.Intn(50))}
+		}
+	}
+	keys := chain.SortedKeys(cur)
+	out := map[string]uint32{}
+	for k, v := range cur {
+		out[k] = v
+	}
+	other := func(v uint32) uint32 { // a share different from v, total kept small
+		w := uint32(1 + r.Intn(40))
+		if w == v {
+			w++
+		}
+		return w
+	}
+	variant := r.Intn(10)
+	if sameKeys && r.Chance(1, 2) {
+		variant = r.Intn(3)
+	}
+	switch variant {
+	case 0: // same keys, every share different
+		for _, k := range keys {
+			out[k] = other(cur[k])
+		}
+	case 1, 2: // same keys, one share different
+		k := keys[r.Intn(len(keys))]
+		out[k] = other(cur[k])
+		if r.Chance(1, 3) {
+			out[k] = []uint32{1, 100, cur[k] + 1}[r.Intn(3)]
+			if out[k] == cur[k] {
+				out[k] = cur[k] + 1
+			}
+		}
+	case 3: // shares swapped between two keys (one key: the key replaced, share kept)
+		if len(keys) >= 2 && cur[keys[0]] != cur[keys[1]] {
+			out[keys[0]], out[keys[1]] = cur[keys[1]], cur[keys[0]]
+		} else {
+			delete(out, keys[0])
+			out[fresh()] = cur[keys[0]]
+		}
+	case 4: // key added
+		out[fresh()] = uint32(1 + r.Intn(10))
+	case 5: // key removed
+		delete(out, keys[r.Intn(len(keys))])
+	case 6: // key replaced, share kept
+		k := keys[r.Intn(len(keys))]
+		delete(out, k)
+		out[fresh()] = cur[k]
+	case 7:
+		return nil
+	case 8:
+		return nil
+	default: // identical copy
+	}
+	if len(out) == 0 {
+		// the wire format has no empty map: it decodes as nil, and sign bytes made from the empty form do not verify
+		return nil
+	}
+	return out
+}
+
 func (h *Hist) genChains(cur []string) []string {
 	r := h.r
 	if len(cur) >= 1 && r.Chance(h.w(1, "c21", 2), 4) {
@@ -293,7 +377,7 @@ func (h *Hist) action(height int64, bt time.Time, codes map[string]int, txs *[][
 	}
 	menu := []choice{
 		{h.w(14, "c23", 6), "stakenew"}, {h.w(h.w(5, "c19", 12), "c24", 12), "restake"}, {h.w(16, "c23", 40), "edit"}, {h.w(12, "c24", 22), "unstake"}, {h.w(10, "c25", 18), "unjail"},
-		{h.w(7, "c22", 14), "param"}, {h.w(8, "c25", 18), "slash"}, {4, "burnchal"}, {4, "reward"}, {h.w(2, "c19", 5), "send"}, {h.w(2, "c21", 12), "chainedit"},
+		{h.w(7, "c22", 14), "param"}, {h.w(8, "c25", 18), "slash"}, {4, "burnchal"}, {4, "reward"}, {h.w(2, "c19", 5), "send"}, {h.w(2, "c21", 12), "chainedit"}, {h.w(2, "c23", 30), "deledit"},
 	}
 	if height < 3 {
 		// transactions of block h are decoded with the rules of height h-1: the modern node messages exist from block 3
@@ -447,6 +531,9 @@ func (h *Hist) action(height int64, bt time.Time, codes map[string]int, txs *[][
 		del := v.RewardDelegators
 		if r.Chance(1, 2) {
 			del = h.genDelegators(v.RewardDelegators)
+			if r.Chance(1, 2) {
+				del = h.deriveDelegators(v.RewardDelegators, false)
+			}
 		}
 		url := v.ServiceURL
 		if r.Chance(1, 4) {
@@ -479,6 +566,36 @@ func (h *Hist) action(height int64, bt time.Time, codes map[string]int, txs *[][
 		}
 		bz := chain.SignTx(chainID, k, chain.MsgNodeStake(k, v.StakedTokens.Int64(), chains, v.ServiceURL, out, v.RewardDelegators), fee, h.nextEntropy(), "")
 		line := h.stakeLine(height, k, k, v.StakedTokens.Int64(), chains, v.ServiceURL, out, v.RewardDelegators)
+		res, taken := h.deliver(height, bt, bz, txs, results)
+		record(line, res, taken)
+	case "deledit":
+		// an edit-stake that changes nothing but the reward delegators (derived from the stored map), signed by the
+		// operator or by the output address; nodes with a separate output address and stored delegators are preferred
+		if len(staked) == 0 {
+			return
+		}
+		v := staked[r.Intn(len(staked))]
+		for i := 0; i < 6; i++ {
+			if ok, has := outKeyOf(h, v); has && !ok.Addr.Equals(v.Address) && (len(v.RewardDelegators) > 0 || i >= 3) {
+				break
+			}
+			v = staked[r.Intn(len(staked))]
+		}
+		k := h.keyOf[v.Address.String()]
+		out := v.OutputAddress
+		if out == nil { // custodial record: the operator may set the output address (once)
+			out = k.Addr
+			if r.Chance(1, 2) {
+				out = h.outs[r.Intn(2)].Addr
+			}
+		}
+		signer := k
+		if okey, has := outKeyOf(h, v); has && len(v.RewardDelegators) > 0 && r.Chance(3, 5) {
+			signer = okey
+		}
+		del := h.deriveDelegators(v.RewardDelegators, true)
+		bz := chain.SignTx(chainID, signer, chain.MsgNodeStake(k, v.StakedTokens.Int64(), v.Chains, v.ServiceURL, out, del), fee, h.nextEntropy(), "")
+		line := h.stakeLine(height, signer, k, v.StakedTokens.Int64(), v.Chains, v.ServiceURL, out, del)
 		res, taken := h.deliver(height, bt, bz, txs, results)
 		record(line, res, taken)
 	case "unstake":
